@@ -191,27 +191,132 @@ func rulePipeline(c *Ctx) {
 		}
 	}
 	c.census("I-LIMIT", "result lists filled from ranked items in the completion handler", nMain, 1)
-	// I-LIMIT: who reads MaxResults
+	// I-LIMIT: what the value of MaxResults is used for.  Every *read* of the limit (a load; taking the field's
+	// address for the settings parser is not a read) happens in the handler, in settings code (a function that
+	// returns settings or a settings section, or that writes into one: parser, normaliser, methods on the
+	// settings types), or in the truncation step itself (a function in which the loaded value is only compared
+	// and used as a slice bound of the item list).
 	readers := map[string]bool{}
-	settingsFn := map[string]bool{} // functions that produce settings values: the parser, its helpers, the normaliser
+	allowed := map[string]bool{}
+	rt := settingsRootType(sm)
+	isSettingsStruct := func(t types.Type) bool {
+		if rt == nil {
+			return false
+		}
+		if pt, ok := t.Underlying().(*types.Pointer); ok {
+			t = pt.Elem()
+		}
+		if types.Identical(t, rt) {
+			return true
+		}
+		if st, ok := rt.Underlying().(*types.Struct); ok {
+			for i := 0; i < st.NumFields(); i++ {
+				if types.Identical(st.Field(i).Type(), t) {
+					return true
+				}
+			}
+		}
+		return false
+	}
+	writesSettings := func(f *ssa.Function) bool {
+		for _, b := range f.Blocks {
+			for _, ins := range b.Instrs {
+				if st, ok := ins.(*ssa.Store); ok {
+					if fa, ok := st.Addr.(*ssa.FieldAddr); ok && isSettingsStruct(fa.X.Type()) {
+						return true
+					}
+				}
+			}
+		}
+		if f.Signature.Recv() != nil && isSettingsStruct(f.Signature.Recv().Type()) && f.Signature.Results().Len() == 1 && isSettingsStruct(f.Signature.Results().At(0).Type()) {
+			return true
+		}
+		return false
+	}
+	onlyTruncates := func(v ssa.Value) bool {
+		// every use of the loaded limit: comparison, slice bound, min/max, conversion of those
+		seen := map[ssa.Value]bool{}
+		var ok func(v ssa.Value) bool
+		ok = func(v ssa.Value) bool {
+			if seen[v] {
+				return true
+			}
+			seen[v] = true
+			refs := v.Referrers()
+			if refs == nil {
+				return true
+			}
+			for _, r := range *refs {
+				switch x := r.(type) {
+				case *ssa.BinOp:
+					switch x.Op {
+					case token.LSS, token.LEQ, token.GTR, token.GEQ, token.EQL, token.NEQ:
+					default:
+						return false
+					}
+				case *ssa.Slice:
+					if x.High != v && x.Max != v {
+						return false
+					}
+				case *ssa.Call:
+					bi, isB := x.Call.Value.(*ssa.Builtin)
+					if !isB || (bi.Name() != "min" && bi.Name() != "max") {
+						return false
+					}
+					if !ok(x) {
+						return false
+					}
+				case *ssa.Convert:
+					if !ok(x) {
+						return false
+					}
+				case *ssa.Phi:
+					if !ok(x) {
+						return false
+					}
+				case *ssa.If, *ssa.DebugRef:
+				default:
+					return false
+				}
+			}
+			return true
+		}
+		return ok(v)
+	}
 	for _, f := range c.P.ModuleFuncs() {
 		for _, b := range f.Blocks {
 			for _, ins := range b.Instrs {
-				if fa, ok := ins.(*ssa.FieldAddr); ok && fieldAddrNamed(fa, limitField) {
-					for _, r := range *fa.Referrers() {
-						if _, isStore := r.(*ssa.Store); !isStore {
-							readers[funcName(f)] = true
-							if returnsSettings(f, sm) {
-								settingsFn[funcName(f)] = true
+				var loaded []ssa.Value
+				switch x := ins.(type) {
+				case *ssa.FieldAddr:
+					if fieldAddrNamed(x, limitField) {
+						for _, r := range *x.Referrers() {
+							if ld, ok := r.(*ssa.UnOp); ok && ld.Op == token.MUL {
+								loaded = append(loaded, ld)
 							}
 						}
+					}
+				case *ssa.Field:
+					if st, ok := x.X.Type().Underlying().(*types.Struct); ok && st.Field(x.Field).Name() == limitField {
+						loaded = append(loaded, x)
+					}
+				}
+				for _, v := range loaded {
+					name := funcName(f)
+					readers[name] = true
+					if returnsSettings(f, sm) || writesSettings(f) || onlyTruncates(v) {
+						if _, seen := allowed[name]; !seen {
+							allowed[name] = true
+						}
+					} else {
+						allowed[name] = false
 					}
 				}
 			}
 		}
 	}
 	for r := range readers {
-		okR := r == hname || settingsFn[r]
+		okR := r == hname || allowed[r]
 		c.check(okR, "I-LIMIT", r, "reader of the result limit", token.NoPos, "limit is read by the truncation / settings code only",
 			"the result limit is read outside the normaliser, the settings parser and the truncation step: it can influence which items are generated or how they are ranked, so a smaller maximum is no longer a prefix of a larger one")
 	}
